@@ -1,21 +1,38 @@
 package main
 
-// The functions of /repo that are translated into GoLite on every check (see golite.go), grouped by the property
-// whose theorems are about them.
+// The functions of /repo that are translated into GoLite on every check (see golite.go). One generated file per Go
+// package; a function that several packages share textually translates to the same term, so one proof serves all.
 
 func init() {
-	registerGoLite(glGroup{
-		id: "golitec04", out: "GoLiteC04.v", pkgDir: "compactindexsized",
+	ciFuncs := []glFunc{
+		{name: "searchEytzinger"},
+		{name: "hashUint64"},
+		{recv: "Header", name: "BucketHash"},
+		{recv: "BucketHeader", name: "Hash"},
+		{name: "uintLe"},
+		{name: "eytzinger"},
+	}
+	ciExt := []string{"xxhash.Sum64", "EntryHash64"}
+	registerGoLite(glGroup{id: "golitec04", out: "GoLiteC04.v", pkgDir: "compactindexsized",
+		funcs: append(append([]glFunc{}, ciFuncs...), glFunc{name: "putUintLe"}), externs: ciExt})
+	registerGoLite(glGroup{id: "golitel36c04", out: "GoLiteL36C04.v", pkgDir: "deprecated/compactindex36", funcs: ciFuncs, externs: ciExt})
+	registerGoLite(glGroup{id: "golitel8c04", out: "GoLiteL8C04.v", pkgDir: "deprecated/compactindex", funcs: ciFuncs, externs: ciExt})
+
+	btFuncs := []glFunc{
+		{name: "searchEytzinger"},
+		{name: "eytzinger"},
+		{name: "getCleanSet"},
+	}
+	registerGoLite(glGroup{id: "golitec05", out: "GoLiteC05.v", pkgDir: "bucketteer",
+		funcs: append([]glFunc{{name: "prefixToUint16"}, {name: "uint16ToPrefix"}}, btFuncs...)})
+	registerGoLite(glGroup{id: "golitelc05", out: "GoLiteLC05.v", pkgDir: "deprecated/bucketteer", funcs: btFuncs})
+
+	registerGoLite(glGroup{id: "golitec01", out: "GoLiteC01.v", pkgDir: "indexes",
 		funcs: []glFunc{
-			{name: "searchEytzinger"},
-			{name: "hashUint64"},
-			{recv: "Header", name: "BucketHash"},
-			{recv: "BucketHeader", name: "Hash"},
-			{name: "maxCls64"},
-			{name: "uintLe"},
-			{name: "putUintLe"},
-			{name: "eytzinger"},
-		},
-		externs: []string{"xxhash.Sum64", "EntryHash64"},
-	})
+			{name: "Uint24tob"}, {name: "BtoUint24"}, {name: "Uint40tob"}, {name: "BtoUint40"},
+			{name: "Uint48tob"}, {name: "BtoUint48"}, {name: "Uint64tob"}, {name: "BtoUint64"}, {name: "cloneAndPad"},
+			{recv: "OffsetAndSize", name: "Bytes"}, {recv: "OffsetAndSize", name: "FromBytes"}, {recv: "OffsetAndSize", name: "IsValid"},
+		}})
+	registerGoLite(glGroup{id: "golitec02", out: "GoLiteC02.v", pkgDir: "slottools",
+		funcs: []glFunc{{name: "CalcEpochForSlot"}, {name: "CalcEpochLimits"}, {name: "Uint64RangesHavePartialOverlapIncludingEdges"}}})
 }
